@@ -68,13 +68,13 @@ theorem nodup_cons {c : Chain κ} (hc : NoDup c) {k : κ} (v : Nat) (h : scan c 
 
 /-- table invariant: at least one bucket; every chain is duplicate-free and holds only
 keys that hash to its bucket -/
-structure Inv (h : κ → Nat) (t : HT κ) : Prop where
+structure HInv (h : κ → Nat) (t : HT κ) : Prop where
   pos : 0 < t.buckets.size
   nodup : ∀ (i : Nat) (c : Chain κ), t.buckets[i]? = some c → NoDup c
   place : ∀ (i : Nat) (c : Chain κ), t.buckets[i]? = some c → ∀ p ∈ c, h p.1 % t.buckets.size = i
 
 /-- the map a table represents -/
-def get (h : κ → Nat) (t : HT κ) (k : κ) : Option Nat :=
+def hget (h : κ → Nat) (t : HT κ) (k : κ) : Option Nat :=
   match t.buckets[idx h t k]? with
   | some c => scan c k
   | none => none
@@ -93,45 +93,45 @@ theorem replicate_some {m i : Nat} {c : Chain κ}
   · injection hc with hc; exact hc.symm
   · exact absurd hc (by simp)
 
-theorem inv_replicate (h : κ → Nat) {m : Nat} (hm : 0 < m) :
-    Inv h ({ buckets := Array.replicate m [] } : HT κ) ∧
-      ∀ k, get h ({ buckets := Array.replicate m [] } : HT κ) k = none := by
+theorem hinv_replicate (h : κ → Nat) {m : Nat} (hm : 0 < m) :
+    HInv h ({ buckets := Array.replicate m [] } : HT κ) ∧
+      ∀ k, hget h ({ buckets := Array.replicate m [] } : HT κ) k = none := by
   refine ⟨⟨by simpa using hm, ?_, ?_⟩, ?_⟩
   · intro i c hc
     rw [replicate_some hc]; exact List.Pairwise.nil
   · intro i c hc
     rw [replicate_some hc]; intro p hp; exact absurd hp (by simp)
   · intro k
-    unfold get
+    unfold hget
     split
     · rename_i c hc
       rw [replicate_some hc]; rfl
     · rfl
 
-theorem inv_init {h : κ → Nat} {n cap : Nat} {t : HT κ} (e : init n cap = some t) :
-    Inv h t ∧ ∀ k, get h t k = none := by
+theorem hinv_init {h : κ → Nat} {n cap : Nat} {t : HT κ} (e : init n cap = some t) :
+    HInv h t ∧ ∀ k, hget h t k = none := by
   unfold init at e
   split at e
   · exact absurd e (by simp)
   · injection e with e
     subst e
-    exact inv_replicate h (by split <;> omega)
+    exact hinv_replicate h (by split <;> omega)
 
 /-- `muggle_hash_table_find` never leaves the table and returns the represented value -/
-theorem find_ok {h : κ → Nat} {t : HT κ} (inv : Inv h t) (k : κ) :
-    find h t k = .ok (get h t k) := by
+theorem hfind_ok {h : κ → Nat} {t : HT κ} (inv : HInv h t) (k : κ) :
+    find h t k = .ok (hget h t k) := by
   obtain ⟨c, hc⟩ := bucket_some (h := h) inv.pos k
-  simp [find, get, hc]
+  simp [find, hget, hc]
 
 /-- updating one bucket: what `get` sees -/
-theorem get_set_bucket {h : κ → Nat} {t : HT κ} (hp : 0 < t.buckets.size) (k : κ) (c' : Chain κ)
+theorem hget_set_bucket {h : κ → Nat} {t : HT κ} (hp : 0 < t.buckets.size) (k : κ) (c' : Chain κ)
     (k' : κ) :
-    get h { buckets := t.buckets.set! (idx h t k) c' } k' =
-      if idx h t k' = idx h t k then scan c' k' else get h t k' := by
+    hget h { buckets := t.buckets.set! (idx h t k) c' } k' =
+      if idx h t k' = idx h t k then scan c' k' else hget h t k' := by
   have hsz : (t.buckets.set! (idx h t k) c').size = t.buckets.size := by simp
   have hidx : idx h { buckets := t.buckets.set! (idx h t k) c' } k' = idx h t k' := by
     simp [idx]
-  unfold get
+  unfold hget
   rw [hidx]
   simp only [Array.set!_eq_setIfInBounds, Array.getElem?_setIfInBounds]
   by_cases e : idx h t k = idx h t k'
@@ -141,9 +141,9 @@ theorem get_set_bucket {h : κ → Nat} {t : HT κ} (hp : 0 < t.buckets.size) (k
   · have e' : ¬ idx h t k' = idx h t k := fun x => e x.symm
     simp [e, e']
 
-theorem inv_set_bucket {h : κ → Nat} {t : HT κ} (inv : Inv h t) (k : κ) (c' : Chain κ)
+theorem hinv_set_bucket {h : κ → Nat} {t : HT κ} (inv : HInv h t) (k : κ) (c' : Chain κ)
     (hn : NoDup c') (hpl : ∀ p ∈ c', h p.1 % t.buckets.size = idx h t k) :
-    Inv h { buckets := t.buckets.set! (idx h t k) c' } := by
+    HInv h { buckets := t.buckets.set! (idx h t k) c' } := by
   have hlt := idx_lt (h := h) inv.pos k
   refine ⟨by simpa using inv.pos, ?_, ?_⟩
   · intro i c hc
@@ -162,42 +162,42 @@ theorem inv_set_bucket {h : κ → Nat} {t : HT κ} (inv : Inv h t) (k : κ) (c'
 
 /-- **`muggle_hash_table_put`.** Never leaves the table; an existing key is rejected (NULL) and
 the table is untouched; otherwise the new table represents the old map plus `k ↦ v`. -/
-theorem put_spec {h : κ → Nat} {t : HT κ} (inv : Inv h t) (k : κ) (v : Nat) :
-    (∃ w, get h t k = some w ∧ put h t k v = .ok none) ∨
-    (get h t k = none ∧ ∃ t', put h t k v = .ok (some t') ∧ Inv h t' ∧
+theorem hput_spec {h : κ → Nat} {t : HT κ} (inv : HInv h t) (k : κ) (v : Nat) :
+    (∃ w, hget h t k = some w ∧ put h t k v = .ok none) ∨
+    (hget h t k = none ∧ ∃ t', put h t k v = .ok (some t') ∧ HInv h t' ∧
       t'.buckets.size = t.buckets.size ∧
-      ∀ k', get h t' k' = if k' = k then some v else get h t k') := by
+      ∀ k', hget h t' k' = if k' = k then some v else hget h t k') := by
   obtain ⟨c, hc⟩ := bucket_some (h := h) inv.pos k
-  have hg : get h t k = scan c k := by simp [get, hc]
+  have hg : hget h t k = scan c k := by simp [hget, hc]
   cases hs : scan c k with
   | some w => left; exact ⟨w, by rw [hg, hs], by simp [put, hc, hs]⟩
   | none =>
     right
     refine ⟨by rw [hg, hs], { buckets := t.buckets.set! (idx h t k) ((k, v) :: c) },
       by simp only [put, hc, hs], ?_, by simp, ?_⟩
-    · refine inv_set_bucket inv k _ (nodup_cons (inv.nodup _ c hc) v hs) ?_
+    · refine hinv_set_bucket inv k _ (nodup_cons (inv.nodup _ c hc) v hs) ?_
       intro p hp
       rcases List.mem_cons.mp hp with rfl | hp
       · rfl
       · exact inv.place _ c hc p hp
     · intro k'
-      rw [get_set_bucket inv.pos, scan_cons]
+      rw [hget_set_bucket inv.pos, scan_cons]
       by_cases e : k' = k
       · subst e; simp
       · simp only [e, if_false]
         split
         · rename_i e2
-          simp [get, e2, hc]
+          simp [hget, e2, hc]
         · rfl
 
 /-- **`find` + `muggle_hash_table_remove`.** Never leaves the table; an absent key changes
 nothing; otherwise exactly the association of `k` is gone. -/
-theorem remove_spec {h : κ → Nat} {t : HT κ} (inv : Inv h t) (k : κ) :
-    ∃ t' ok, remove h t k = .ok (t', ok) ∧ Inv h t' ∧ t'.buckets.size = t.buckets.size ∧
-      ok = (get h t k).isSome ∧ (ok = false → t' = t) ∧
-      ∀ k', get h t' k' = if k' = k then none else get h t k' := by
+theorem hremove_spec {h : κ → Nat} {t : HT κ} (inv : HInv h t) (k : κ) :
+    ∃ t' ok, remove h t k = .ok (t', ok) ∧ HInv h t' ∧ t'.buckets.size = t.buckets.size ∧
+      ok = (hget h t k).isSome ∧ (ok = false → t' = t) ∧
+      ∀ k', hget h t' k' = if k' = k then none else hget h t k' := by
   obtain ⟨c, hc⟩ := bucket_some (h := h) inv.pos k
-  have hg : get h t k = scan c k := by simp [get, hc]
+  have hg : hget h t k = scan c k := by simp [hget, hc]
   cases hs : scan c k with
   | none =>
     refine ⟨t, false, by simp [remove, hc, hs], inv, rfl, by simp [hg, hs], fun _ => rfl, ?_⟩
@@ -208,24 +208,24 @@ theorem remove_spec {h : κ → Nat} {t : HT κ} (inv : Inv h t) (k : κ) :
   | some w =>
     refine ⟨{ buckets := t.buckets.set! (idx h t k) (unlink c k) }, true,
       by simp only [remove, hc, hs], ?_, by simp, by simp [hg, hs], by simp, ?_⟩
-    · refine inv_set_bucket inv k _ (nodup_unlink (inv.nodup _ c hc) k) ?_
+    · refine hinv_set_bucket inv k _ (nodup_unlink (inv.nodup _ c hc) k) ?_
       intro p hp
       exact inv.place _ c hc p ((unlink_sublist c k).subset hp)
     · intro k'
-      rw [get_set_bucket inv.pos, scan_unlink (inv.nodup _ c hc)]
+      rw [hget_set_bucket inv.pos, scan_unlink (inv.nodup _ c hc)]
       by_cases e : k' = k
       · subst e; simp
       · simp only [e, if_false]
         split
         · rename_i e2
-          simp [get, e2, hc]
+          simp [hget, e2, hc]
         · rfl
 
 /-- the chains together hold exactly the represented associations -/
-theorem mem_toList_iff {h : κ → Nat} {t : HT κ} (inv : Inv h t) (k : κ) (v : Nat) :
-    (k, v) ∈ toList t ↔ get h t k = some v := by
+theorem hmem_toList_iff {h : κ → Nat} {t : HT κ} (inv : HInv h t) (k : κ) (v : Nat) :
+    (k, v) ∈ toList t ↔ hget h t k = some v := by
   obtain ⟨c, hc⟩ := bucket_some (h := h) inv.pos k
-  have hg : get h t k = scan c k := by simp [get, hc]
+  have hg : hget h t k = scan c k := by simp [hget, hc]
   have hmem : ∀ {c : Chain κ}, NoDup c → ((k, v) ∈ c ↔ scan c k = some v) := by
     intro c
     induction c with
